@@ -87,20 +87,21 @@ def _alarm(*a):
 
 
 def guarded(site, fn, findings, detail, seconds=20):
-    old = signal.signal(signal.SIGALRM, _alarm)
-    signal.setitimer(signal.ITIMER_REAL, seconds)
+    # CPU time of this process, not wall time: the verdict must not depend on how busy the machine is
+    old = signal.signal(signal.SIGVTALRM, _alarm)
+    signal.setitimer(signal.ITIMER_VIRTUAL, seconds)
     lim = sys.getrecursionlimit()
     try:
         return True, fn()
     except _Timeout:
-        findings.append(("no-termination@" + site, "%s did not return within %d s on %s" % (site, seconds, detail)))
+        findings.append(("no-termination@" + site, "%s used more than %d s of CPU time without returning on %s" % (site, seconds, detail)))
     except RecursionError:
         findings.append(("error:RecursionError@" + site, "%s exhausted the stack on %s" % (site, detail)))
     except Exception as e:      # noqa: BLE001 - any exception is a verdict about the code under test here
         findings.append(("error:%s@%s" % (type(e).__name__, site), "%s raised %r on %s" % (site, e, detail)))
     finally:
-        signal.setitimer(signal.ITIMER_REAL, 0)
-        signal.signal(signal.SIGALRM, old)
+        signal.setitimer(signal.ITIMER_VIRTUAL, 0)
+        signal.signal(signal.SIGVTALRM, old)
         sys.setrecursionlimit(lim)
     return False, None
 
